@@ -29,8 +29,12 @@
 EXTENDS Naturals, Sequences, FiniteSets, TLC
 
 CONSTANTS Callers,     \* a set of naturals 1..N (callers are started in this order)
-          Keys, Slots, Lifetime, MaxTime,
+          Keys,        \* a set of naturals 1..K (a key is first used only after all smaller keys: symmetry)
+          Slots, Lifetime, MaxTime,
           MaxVals,     \* values are 1..MaxVals: the sequence number of the successful load that produced them
+          MaxCancels,  \* bounds on what the environment does (exploration bounds, not part of the class)
+          MaxFails,
+          TickWhenIdleOnly,   \* TRUE: the clock advances only while the ready queue is empty
           Shield
 
 VARIABLES
@@ -57,12 +61,13 @@ VARIABLES
   envc,      \* the harness cancelled this caller
   lres,      \* outcome of the load the caller waited for: none | ok | fail | cancel
   nfl,       \* number of unfinished load tasks per key
-  vkey       \* key each value was loaded for
+  vkey,      \* key each value was loaded for
+  ncancel, nfail   \* how often the environment cancelled a caller / failed a load
 
 vars == <<clock, cache, expiry, order, ld, lval, lout, waiters, pc, key, role, must, got, outer, lfin, res, rq,
-          nvals, age, envc, lres, nfl, vkey>>
+          nvals, age, envc, lres, nfl, vkey, ncancel, nfail>>
 
-NoKey == "-"
+NoKey == 0
 NoGot == [o |-> "none", v |-> 0]
 
 Init ==
@@ -89,6 +94,8 @@ Init ==
   /\ lres = [c \in Callers |-> "none"]
   /\ nfl = [k \in Keys |-> 0]
   /\ vkey = [v \in 1..MaxVals |-> NoKey]
+  /\ ncancel = 0
+  /\ nfail = 0
 
 ----------------------------------------------------------------------------
 \* ---- helpers ----------------------------------------------------------------------------------
@@ -107,17 +114,19 @@ Stored(k, v)   == Evicted(Put(<<cache, expiry, order>>, k, v))
 Call(c, k) ==
   /\ pc[c] = "idle"
   /\ \A d \in Callers : d < c => pc[d] # "idle"
+  /\ \A j \in Keys : j < k => \E d \in Callers : key[d] = j
   /\ pc' = [pc EXCEPT ![c] = "start"]
   /\ key' = [key EXCEPT ![c] = k]
   /\ rq' = Append(rq, <<"T", c>>)
   /\ UNCHANGED <<clock, cache, expiry, order, ld, lval, lout, waiters, role, must, got, outer, lfin, res, nvals,
-                 age, envc, lres, nfl, vkey>>
+                 age, envc, lres, nfl, vkey, ncancel, nfail>>
 
 \* task.cancel() on the caller's task (at most once per caller)
 Cancel(c) ==
   /\ pc[c] \in {"start", "wait", "woken"}
-  /\ ~envc[c]
+  /\ ~envc[c] /\ ncancel < MaxCancels
   /\ envc' = [envc EXCEPT ![c] = TRUE]
+  /\ ncancel' = ncancel + 1
   /\ IF pc[c] \in {"start", "woken"}
      THEN \* the task's step is already scheduled: _must_cancel
           /\ must' = [must EXCEPT ![c] = TRUE]
@@ -135,7 +144,8 @@ Cancel(c) ==
           /\ ld' = [ld EXCEPT ![k] = "cancelling"]
           /\ rq' = IF ld[k] = "wait" THEN Append(rq, <<"L", k>>) ELSE rq
           /\ UNCHANGED <<must, outer, got, pc>>
-  /\ UNCHANGED <<clock, cache, expiry, order, lval, lout, waiters, key, role, lfin, res, nvals, age, lres, nfl, vkey>>
+  /\ UNCHANGED <<clock, cache, expiry, order, lval, lout, waiters, key, role, lfin, res, nvals, age, lres, nfl, vkey,
+                 nfail>>
 
 LoadDone(k) ==
   /\ ld[k] = "wait" /\ nvals < MaxVals
@@ -145,20 +155,22 @@ LoadDone(k) ==
   /\ ld' = [ld EXCEPT ![k] = "ok"]
   /\ rq' = Append(rq, <<"L", k>>)
   /\ UNCHANGED <<clock, cache, expiry, order, lout, waiters, pc, key, role, must, got, outer, lfin, res, age, envc,
-                 lres, nfl>>
+                 lres, nfl, ncancel, nfail>>
 
 LoadFail(k) ==
-  /\ ld[k] = "wait"
+  /\ ld[k] = "wait" /\ nfail < MaxFails
+  /\ nfail' = nfail + 1
   /\ ld' = [ld EXCEPT ![k] = "fail"]
   /\ rq' = Append(rq, <<"L", k>>)
   /\ UNCHANGED <<clock, cache, expiry, order, lval, lout, waiters, pc, key, role, must, got, outer, lfin, res, nvals,
-                 age, envc, lres, nfl, vkey>>
+                 age, envc, lres, nfl, vkey, ncancel>>
 
 Tick ==
   /\ clock < MaxTime
+  /\ TickWhenIdleOnly => rq = <<>>
   /\ clock' = clock + 1
   /\ UNCHANGED <<cache, expiry, order, ld, lval, lout, waiters, pc, key, role, must, got, outer, lfin, res, rq, nvals,
-                 age, envc, lres, nfl, vkey>>
+                 age, envc, lres, nfl, vkey, ncancel, nfail>>
 
 ----------------------------------------------------------------------------
 \* ---- the steps asyncio runs -------------------------------------------------------------------
@@ -221,7 +233,7 @@ Resume(c) ==
   /\ UNCHANGED <<waiters, role, outer, lfin, age, lres, nfl, got>>
 
 CallerStep(c) ==
-  /\ UNCHANGED <<clock, lval, lout, key, nvals, envc, vkey>>
+  /\ UNCHANGED <<clock, lval, lout, key, nvals, envc, vkey, ncancel, nfail>>
   /\ IF pc[c] = "start"
      THEN IF must[c]
           THEN \* CancelledError is thrown into the coroutine before it runs
@@ -256,7 +268,7 @@ Finish(k, o) ==
           /\ UNCHANGED <<cache, expiry, order, lfin>>
 
 LoaderStep(k) ==
-  /\ UNCHANGED <<clock, lval, key, role, must, outer, res, nvals, age, envc, vkey>>
+  /\ UNCHANGED <<clock, lval, key, role, must, outer, res, nvals, age, envc, vkey, ncancel, nfail>>
   /\ CASE ld[k] = "new" ->        \* load(k) starts and awaits its future
             /\ ld' = [ld EXCEPT ![k] = "wait"]
             /\ rq' = Tail(rq)
@@ -275,14 +287,14 @@ InnerCb(c) ==
      ELSE /\ rq' = Tail(rq)
           /\ UNCHANGED <<outer, pc>>
   /\ UNCHANGED <<clock, cache, expiry, order, ld, lval, lout, waiters, key, role, must, got, lfin, res, nvals, age, envc,
-                 lres, nfl, vkey>>
+                 lres, nfl, vkey, ncancel, nfail>>
 
 \* shield's _outer_done_callback: detaches _inner_done_callback from a load task that is still running
 OuterCb(c) ==
   /\ waiters' = IF lfin[c] THEN waiters ELSE [waiters EXCEPT ![key[c]] = Without(@, c)]
   /\ rq' = Tail(rq)
   /\ UNCHANGED <<clock, cache, expiry, order, ld, lval, lout, pc, key, role, must, got, outer, lfin, res, nvals, age,
-                 envc, lres, nfl, vkey>>
+                 envc, lres, nfl, vkey, ncancel, nfail>>
 
 Step ==
   /\ rq # <<>>
